@@ -90,8 +90,14 @@ func c16Check(l *explore.Local, _ struct{}, c c16Case) *explore.Fail {
 			return f
 		}
 		switch c.Kind {
-		case "restart":
+		case "restart", "restart-rewrite":
 			if cyc == c.At {
+				if c.Kind == "restart-rewrite" {
+					// the source changes just before the second request: the second transfer must deliver the new byte,
+					// also at offsets the first one had already copied
+					a := uint16(c.Page2)<<8 + uint16(c.Index)
+					m.Map.Write(a, ^m.Map.Read(a))
+				}
 				want = c16Source(m, c.Page2)
 				m.Map.Write(0xff46, c.Page2)
 				started = 0
@@ -145,7 +151,7 @@ func c16Check(l *explore.Local, _ struct{}, c c16Case) *explore.Fail {
 func init() {
 	register("C16", "model_checking", func(c *Ctx) {
 		if c.R != nil {
-			c.R.Rule = "on an MBC1+RAM cartridge with position-dependent contents in ROM, VRAM (LCD off), cartridge RAM, WRAM: (basic) every source page 00-F1 x RAM enabled/disabled: FE00, FE9F, FEA0, FEFF read FF after every cycle until completion, completion within 162 cycles, then OAM equals the 160 source bytes (E0-F1 through the WRAM mirror); (restart) a second FF46 write after every cycle 1-162 with 6 x 6 page pairs; (rewrite) one source byte changed after every cycle 0-165 for byte indices {0,1,79,80,158,159}: the byte must hold the value it had when copied (old or new accepted within one cycle of the copy); (lcdon) with the display running, a transfer started at every cycle position of six lines (hardware stepped without the CPU)"
+			c.R.Rule = "on an MBC1+RAM cartridge with position-dependent contents in ROM, VRAM (LCD off), cartridge RAM, WRAM: (basic) every source page 00-F1 x RAM enabled/disabled: FE00, FE9F, FEA0, FEFF read FF after every cycle until completion, completion within 162 cycles, then OAM equals the 160 source bytes (E0-F1 through the WRAM mirror); (restart) a second FF46 write after every cycle 1-162 with 6 x 6 page pairs; (restart-rewrite) the same with the same page, its echo alias or a neighbour as second source and one source byte changed just before the second request: OAM must hold the second source as it was then; (rewrite) one source byte changed after every cycle 0-165 for byte indices {0,1,79,80,158,159}: the byte must hold the value it had when copied (old or new accepted within one cycle of the copy); (lcdon) with the display running, a transfer started at every cycle position of six lines (hardware stepped without the CPU)"
 			c.R.Assumptions = []string{"completion is observed through FEA0 (00 when OAM is accessible, FF during a transfer)", "ROM-only cartridges are not used here (their A0-BF sources belong to C09/C11)"}
 		}
 		pages := []uint8{0x00, 0x80, 0xc0, 0xdf, 0xe0, 0xf1}
@@ -165,6 +171,18 @@ func init() {
 						}
 						for r := 1; r <= 162; r++ {
 							if !yield(c16Case{Kind: "restart", Page: p1, RAMEn: true, Page2: p2, At: r}) {
+								return
+							}
+						}
+					}
+				}
+				for _, pp := range [][2]uint8{{0xc0, 0xc0}, {0x80, 0x80}, {0xc0, 0xe0}, {0xe0, 0xc0}, {0xd1, 0xf1}, {0xc0, 0xc1}, {0xa0, 0xa0}} {
+					for _, idx := range []int{0, 1, 79, 158, 159} {
+						for r := 1; r <= 162; r++ {
+							if !c.Thorough() && idx != 0 && idx != 79 && r%3 != 0 {
+								continue
+							}
+							if !yield(c16Case{Kind: "restart-rewrite", Page: pp[0], RAMEn: true, Page2: pp[1], At: r, Index: idx}) {
 								return
 							}
 						}
